@@ -11,10 +11,28 @@ Times are `Int` nanoseconds; `zeroTime` is `time.Time{}`.
 namespace Rxn.C11
 open Rxn Rxn.Wm Rxn.Timers
 
-/-- the watermarks a runner broadcasts never decrease, for every stream of event batches and watermark ticks, every
-timestamp order and every allowed lateness -/
-theorem wm_monotone (w : Watermarker) (evs : List REv) : (runnerRun w evs).Pairwise (· ≤ ·) :=
+/-- FULL STATEMENT (false of the code, see `wm_monotone_two_senders_counterexample`, finding D39): the watermarks a runner
+broadcasts never decrease.
+PROVED (`_partial`): they never decrease, for every stream of event batches and watermark ticks, every timestamp order
+and every allowed lateness, **while one goroutine consumes the runner's output stream** (`runnerRun`: stamping and
+sending a placeholder is one step) — i.e. as long as the runner is not deployed again while it is live. The same
+exclusion applies to `wm_eq_max_minus`, `wm_lt_max_forwarded` and the delivered-stream theorems, which are about `runnerRun`/`sentStream`. -/
+theorem wm_monotone_partial (w : Watermarker) (evs : List REv) : (runnerRun w evs).Pairwise (· ≤ ·) :=
   runnerRun_pairwise evs w
+
+/-- D39 seen from C11: with two consumers of the output stream (a second `HandleDeploy` on a live runner) one of them
+stamps 9 and is descheduled, the other forwards an event at 100, stamps and broadcasts 99, then the first broadcasts its
+9: the runner's watermarks decrease (reproduced on the real runner: `fixes/D39_c11_demo_test.go`) -/
+theorem wm_monotone_two_senders_counterexample :
+    run2 ⟨Watermarker.new 0, none, none⟩
+      [.forward [10], .stamp false, .forward [100], .stamp true, .send true, .send false] = [99, 9] ∧
+    ¬ (run2 ⟨Watermarker.new 0, none, none⟩
+      [.forward [10], .stamp false, .forward [100], .stamp true, .send true, .send false]).Pairwise (· ≤ ·) := by
+  have h : run2 ⟨Watermarker.new 0, none, none⟩
+      [.forward [10], .stamp false, .forward [100], .stamp true, .send true, .send false] = [99, 9] := by decide
+  refine ⟨h, ?_⟩
+  rw [h]
+  decide
 
 /-- the watermark stamped on a placeholder when it is sent equals the largest timestamp forwarded before it (the zero
 time if none) minus (allowed lateness + 1ns) -/
@@ -159,7 +177,8 @@ theorem composite_eq_min (ids : List String) (msgs : List (String × Int)) (hne 
 
 /-- the composite never decreases when a runner reports a watermark that is not below its previous report (for a
 runner's first report: not below the current composite — in particular not below the epoch it was counted as, if it was
-configured). With `wm_monotone` the operator's effective watermark is monotone whenever no runner reports below the epoch. -/
+configured). With `wm_monotone_partial` the operator's effective watermark is monotone whenever no runner reports below the
+epoch — which an idle runner does at its first tick (`time.Time{}` − 1 ns): then the composite drops below the epoch once. -/
 theorem composite_monotone (u : Ups) (hwf : u.wf) (hne : u ≠ []) (sender : String) (v : Int)
     (hprev : ∀ x, u.get? sender = some x → x ≤ v) (hfirst : u.get? sender = none → u.composite ≤ v) :
     u.composite ≤ (u.report sender v).2 := by
